@@ -99,3 +99,7 @@ package coalesce
 //@   requires QStable(q) && ctx != nil
 //@   ensures [closed-only-when-empty] res2 == errClosedQueue ==> closed(q.closed) && len(q.queue) == 0
 //@   ensures [valid-item] res2 == nil ==> !has(q.coalesced, res0) && QInv(q)
+
+//@ func IsClosedQueue
+//@   props C11 C05 C12
+//@   ensures res0 <==> err == errClosedQueue
